@@ -306,7 +306,7 @@ func (d *c13pDrv) feed(bad bool) (*c13hViol, string) {
 				break
 			}
 			if time.Since(start) > c13pPatience {
-				return &c13hViol{"sighup:reload-never-completed", fmt.Sprintf("a reload read the valid file version %d completely, but %v later registrations are still answered from version %d", v, c13pPatience, d.lo.Load())}, ""
+				return &c13hViol{"sighup:reload-never-completed", fmt.Sprintf("a reload read the valid file version %d completely, but %v later registrations are still answered from version %d (last answer: set %d, where %d means refused with HTTP 500). Registrar log tail: %q", v, c13pPatience, d.lo.Load(), set, c13hRefused, d.s.logs.tail(400))}, ""
 			}
 			time.Sleep(500 * time.Microsecond)
 		}
